@@ -314,7 +314,9 @@ class Field(Operator):
                 new_shape[self._domain.axes[ind][0]:
                           self._domain.axes[ind][-1]+1] = wgt.shape
                 wgt = wgt.reshape(new_shape)
-                aout *= wgt**power
+                # out of place: integer data cannot take the float volume factors in place;
+                # the cast keeps the dtype (and rounding) the in-place product had for float/complex data
+                aout = (aout*wgt**power).astype(np.result_type(aout.dtype, 1.0))
         fct = fct**power
         if fct != 1.:
             aout *= fct
